@@ -46,7 +46,12 @@ def _gen_cases(tier, seed):
     maxN = 3 if tier == "quick" else 4
     reps = 1 if tier == "quick" else 4
     shapes = {1: [(3,), (1,)], 2: [(2, 3), (3, 1)], 3: [(2, 3, 2), (1, 2, 3)], 4: [(2, 2, 3, 2)]}
-    wkinds = ["mixed", "positive", "with-zero", "ones"]
+    # sign fixing without a reference on components with 0..N negative-dominant factors, orders 3 to 5 (pairs of flips: the count
+    # left over is the parity)
+    for shp in ((2, 3, 2), (2, 2, 3, 2), (2, 2, 2, 2, 3)):
+        for k_ in range(len(shp) + 1):
+            yield C(w="fixsigns_alone", shape=list(shp), R=2, wk="positive", zerocol=False, negative_dominant=k_)
+    wkinds = ["mixed", "positive", "with-zero", "ones", "signs"]      # signs: every weight +1 or -1, at least one -1
     for _ in range(reps):
         for N in range(1, maxN + 1):
             for shp in shapes[N] + [gen.rand_shape(rng, N, 1, 4)]:
@@ -188,6 +193,9 @@ def _make(case, rng):
         w[int(rng.integers(0, R))] = 0.0
     elif wk == "ones":
         w = np.ones(R)
+    elif wk == "signs":
+        w = rng.choice([-1.0, 1.0], size=R)
+        w[int(rng.integers(0, R))] = -1.0
     if case.get("zerocol"):
         fm[int(rng.integers(0, len(shape)))][:, int(rng.integers(0, R))] = 0.0
     if case.get("imbalance") and case.get("w") not in ("score", "score_zero"):
@@ -329,8 +337,37 @@ def run_case(case, ctx):
         unchanged("algebra", None, receiver=True, after_results_changed=True)
         ctx.check(close(denote(K2), k2dig, tol=TOL), "algebra", "CHANGED-TENSOR", "second operand changed when a result was re-parameterised in place", after_results_changed=True)
     elif w == "fixsigns_alone":
+        fm_before = [np.array(f, copy=True) for f in K.factor_matrices]
+        if case.get("negative_dominant") is not None:
+            # a prescribed number of factors whose largest-magnitude entry is negative, in every component
+            k_ = int(case["negative_dominant"])
+            for r_ in range(K.ncomponents):
+                for n_, f in enumerate(K.factor_matrices):
+                    i_ = int(np.argmax(np.abs(f[:, r_])))
+                    want_neg = n_ < k_
+                    if (f[i_, r_] < 0) != want_neg:
+                        f[:, r_] *= -1.0
+            fm_before = [np.array(f, copy=True) for f in K.factor_matrices]
+            ref0 = denote(K).copy()
+            ctx.feat(negative_dominant=str(k_))
         ctx.must("ktensor.fixsigns", K.fixsigns)
-        unchanged("ktensor.fixsigns", None, ref=False)
+        if case.get("negative_dominant") is None:
+            unchanged("ktensor.fixsigns", None, ref=False)
+        else:
+            ctx.check(close(denote(K), ref0, tol=1e-12), "ktensor.fixsigns", "CHANGED-TENSOR", "fixsigns() changed the tensor")
+        # the normal form it promises: signs are flipped in pairs until at most one factor of a component is left with a negative
+        # largest-magnitude entry; every column is the old column or its negative
+        for r_ in range(K.ncomponents):
+            neg = 0
+            for n_, f in enumerate(K.factor_matrices):
+                col, old = f[:, r_], fm_before[n_][:, r_]
+                ctx.check(bool(np.array_equal(col, old) or np.array_equal(col, -old)), "ktensor.fixsigns", "NORMAL-FORM",
+                          "a factor column is neither the old column nor its negative", which="column")
+                a_ = np.abs(col)
+                if a_.size and np.sum(a_ == a_.max()) == 1 and col[int(np.argmax(a_))] < 0:
+                    neg += 1
+            ctx.check(neg <= 1, "ktensor.fixsigns", "NORMAL-FORM",
+                      lambda: f"component {r_}: {neg} factors still have a negative largest-magnitude entry after fixsigns() (pairs can be flipped)", which="pairs")
     elif w == "update":
         modes = case["modes"]
         ctx.feat(weights_too=case["weights_too"])
